@@ -39,11 +39,36 @@ def _digests(sim):
             "meta": [str(k) for k in keys], "metav": [val_digest(sim.meta[k]) for k in keys]}
 
 
+def _rows(sim, spec, limit=40):
+    """row events for TraceRows: per-row cross-stage consistency of the final table"""
+    from nssverif.f64 import bits
+    from astropy.constants import R_earth
+    import astropy.units as u
+    need = ("beta_rad", "log_e_nu", "tauBeta", "tauLorentz", "tauEnergy", "showerEnergy", "tauExitProb", "altDec", "lenDec")
+    if sim is None or len(sim) == 0 or any(c not in sim.colnames for c in need):
+        return []
+    cfg = pipeline.make_config(spec)
+    R = float(R_earth.to(u.km).value)
+    has = "numPEs" in sim.colnames
+    idx = np.linspace(0, len(sim) - 1, min(limit, len(sim))).astype(int)
+    out = []
+    for i in sorted(set(idx.tolist())):
+        g = lambda c: bits(float(sim[c][i]))
+        out.append({"kind": "row", "beta": g("beta_rad"), "loge": g("log_e_nu"), "tauBeta": g("tauBeta"), "tauLorentz": g("tauLorentz"),
+                    "tauEnergy": g("tauEnergy"), "showerEnergy": g("showerEnergy"), "pexit": g("tauExitProb"), "altDec": g("altDec"),
+                    "lenDec": g("lenDec"), "hasOpt": bool(has), "numPEs": g("numPEs") if has else bits(0.0),
+                    "cosEff": g("costhetaChEff") if has else bits(1.0), "f": bits(cfg.simulation.tau_shower.etau_frac), "R": bits(R),
+                    "_m": {"spec": spec, "row": int(i), "altDec": float(sim["altDec"][i]), "tauEnergy": float(sim["tauEnergy"][i])}})
+    return out
+
+
 def _job(job):
     if job.get("cli"):
         return _cli_job(job)
     ev, sim = pipeline.run_compute(job["spec"], job["seed"], job["sched"], job.get("write", False), None, keep_table=True)
     d = _digests(sim) if sim is not None else None
+    if job["sched"] == "sync":
+        job = dict(job, rows=_rows(sim, job["spec"]))
     return ev, d, job
 
 
@@ -147,9 +172,15 @@ def run(tier="quick", seed=0):
     for e in run_events:
         by_base.setdefault(e["base"], []).append(e)
     pr.validate("TraceRuns", None, name="run-matrix", groups=list(by_base.values()))
-    pr.traces = len(traces) + len(by_base)
+    # per-row cross-stage consistency of the final tables (default table version 3)
+    from nssverif import tables
+    rows = [e for _, _, job in results for e in (job.get("rows") or [])]
+    if rows:
+        pr.validate("TraceRows", rows, name="table-rows", chunks=8, env={"TABLE_FILE": tables.export_tau(3)}, heap="3g")
+    pr.traces = len(traces) + len(by_base) + (1 if rows else 0)
+    nrows = len(rows)
     rows = [e["rows"] for e in run_events]
-    pr.note(runs=len(run_events), bases=len(by_base), schedulers=SCHEDS, rows_min=min(rows), rows_max=max(rows),
+    pr.note(rows_checked_across_stages=nrows, runs=len(run_events), bases=len(by_base), schedulers=SCHEDS, rows_min=min(rows), rows_max=max(rows),
             empty_runs=sum(1 for x in rows if x == 0), cli_runs_compared=cli_checked)
     return pr.finish(
         rule="compute() runs over the TLC-enumerated configuration matrix x {sync, threads-4, processes-2, order-reversed} "
